@@ -47,6 +47,10 @@ CHECKS = {
             "payload-length sweeps and exhaustive single-fault / fault-pair placement on real segmented transfers (virtual LAN + virtual clock), wire monitor built on an independent APCI decoder, Hypothesis multi-fault streams",
             "Position-dependent payloads of lengths around (thorough: at) every multiple of the segment size for six max-APDU sizes, all 64 window pairs, transfers of 255..520 segments, and every single drop/duplicate/late-arrival at every frame index of 2-, 3- and 5-segment exchanges in either or both directions are run between real stacks; whatever is delivered must be octet-identical to what was sent (else an abort), every frame on the LAN is decoded independently and must respect sequence numbering, more-follows, proposed window and the acknowledged window, and any single fault must still end in the ack with the exact payload.",
             "Segment sizes follow the library's own slicing (limits are C12); the window rule counts every segment-ack offered to the LAN; 'late arrival' means a delay below the segment timeout."),
+    "C12": ("exploration",
+            "capability cross-product enumeration + Hypothesis-drawn capability tuples with boundary payloads on real client/server stacks; every LAN frame judged through independent NPCI/APCI decoders",
+            "Max-APDU pairs x segmentation-support pairs x max-segments, windows, with and without I-Am knowledge, crossed with payload lengths at every boundary the pair implies, are run between real stacks; every frame on the LAN is decoded independently and must respect the max-APDU / segmented-response-accepted / max-segments announced in the request (responses) or in the I-Am (requests); a message that does not fit must end in an abort with a fitting reason, never silence; window fields must stay in 1..127 and within the peer's proposal, also on the negative-ack path (single drop/duplicate faults on a 6-segment exchange).",
+            "Quick tier draws capability tuples with Hypothesis plus a deterministic core; the full cross product of all dimensions is not enumerated. APDU length is what follows the NPCI."),
 }
 
 NOT_YET = {}
